@@ -129,6 +129,6 @@ Example C06_example :
               LPushBackList 0 0; LInsertBefore 0 15 1; LMoveToFront 0 4; LPushFrontList 1 0; LNext 1]%Z in
   (let '(_, _, _, ok) := spec_run ops in ok) = true /\
   fst (run ops) = (let '(os, _, _, _) := spec_run ops in os) /\
-  walk_fwd (st (snd (run ops))) 0 = Ok [4; 1; 5] /\
+  walk_fwd (st (snd (run ops))) 0 = Ok [7; 3; 6] /\
   nth 10 (fst (run ops)) OUnit = OPanic NilDeref.
 Proof. vm_compute. repeat split. Qed.
